@@ -51,8 +51,12 @@ var jobTable = map[string]jobSet{
 			{Scenario: "uni/N=2/k=7", Budgets: bs(B(1, 1), B(0, 2)), Split: 1},
 			{Scenario: "bidi/N=2/k1=3/k2=3", Budgets: bs(B(1, 0), B(0, 2)), Split: 1},
 			{Scenario: "burst2/N=2/k=2", Budgets: bs(B(0, 2)), Split: 1},
+			// chunked messages whose Recv calls time out between chunks and
+			// are retried (the contents must still come out unaltered)
+			{Scenario: "chunkto/c=2/lens=5,3/rt=500ms", Budgets: bs(B(0, 2)), Split: 1},
 		},
 		thorough: []Job{
+			{Scenario: "chunkto/c=2/lens=5,3/rt=500ms", Budgets: bs(B(1, 1), B(0, 3)), Split: 2},
 			{Scenario: "uni/N=1/k=5", Budgets: bs(B(2, 1), B(1, 2), B(0, 3)), Split: 2},
 			{Scenario: "uni/N=2/k=7", Budgets: bs(B(2, 1), B(1, 2), B(0, 3)), Split: 2},
 			{Scenario: "uni/N=3/k=5", Budgets: bs(B(1, 1), B(0, 3)), Split: 2},
